@@ -554,6 +554,7 @@ func init() {
 		c.Group("C07/role-index-table", "leaders/followers are fed from the voters (split on the leader test), learners from the learners, pending peers from the pending peers, both when inserting and when updating sizes", func() { ruleRoleIndexTable(c) })
 		c.Group("C07/index-discipline", "the shared item is re-pointed only after the old tree/sub-tree entries were removed; sub-tree rebuild is decided on leader, voters, learners and pending peers; range change on both keys; removals hit every index; mutators run under the BasicCluster write lock", func() { ruleRegionsInfoDiscipline(c); ruleRemoveIsAtomic(c) })
 		c.Group("C07/btree-recycling", "recycled btree nodes are cleared in every slice (items, children, rank indices); rank indices are maintained by the structural operations", func() { ruleBTreeRecycling(c) })
+		c.Group("C07/saved-copy-not-aliased", "(shared with C06) the keys the trees are ordered by are never rewritten in place: encryption for storage works on a deep copy", func() { ruleSavedCopyNotAliased(c) })
 		c.Group("C07/end-key-infinity", "(shared with C06) an end key is ordered against other keys only where it was tested non-empty: the empty end key means +∞", func() { ruleEndKeyInfinity(c) })
 	})
 }
